@@ -184,6 +184,67 @@ def _iz(x):
 # ------------------------------------------------------------------ independent line parser
 
 
+class _Decl:
+    def __init__(self, id, number, type):
+        self.id, self.number, self.type = id, number, type
+
+
+def header_of(prog, samples):
+    """the header text the program emits for its current field lists (contig lines need the input file: left out)"""
+    prog.header_contigs = lambda: []
+    if getattr(prog, "cli_command", None) is None:
+        prog.cli_command = ["mchap", "prog"]
+    if not hasattr(prog, "random_seed"):
+        prog.random_seed = 1
+    prog.samples = list(samples)
+    return prog.header()
+
+
+def decl_from_header(lines):
+    """INFO / FORMAT / FILTER declarations parsed from the header TEXT (independent of the program's field objects)"""
+    import re as _re
+
+    info, fmt, flt = [], [], set()
+    for ln in lines:
+        m = _re.match(r'##(INFO|FORMAT)=<ID=([^,]+),Number=([^,]+),Type=([^,]+),Description="', ln)
+        if m:
+            num = int(m.group(3)) if m.group(3).isdigit() else m.group(3)
+            (info if m.group(1) == "INFO" else fmt).append(_Decl(m.group(2), num, m.group(4)))
+        m = _re.match(r'##FILTER=<ID=([^,]+),', ln)
+        if m:
+            flt.add(m.group(1))
+    cols = [ln for ln in lines if ln.startswith("#CHROM")]
+    return info, fmt, flt, (cols[-1].split("\t") if cols else None)
+
+
+def header_problems(line, header_lines, samples):
+    """the record against the emitted header: FILTER ids declared, column line names the samples, last header line is #CHROM"""
+    problems = []
+    info, fmt, flt, cols = decl_from_header(header_lines)
+    f = line.rstrip("\n").split("\t")
+    for x in f[6].split(";"):
+        if x not in (".", "") and x not in flt:
+            problems.append(("undeclared-filter", "FILTER %s is not declared in the header" % x))
+    if cols is None or cols[9:] != list(samples) or not header_lines[-1].startswith("#CHROM") or len(cols) != len(f):
+        problems.append(("header-columns", "the #CHROM line %s does not match the record's %d columns / samples %s" % (cols, len(f), list(samples))))
+    if len({d.id for d in info}) != len(info) or len({d.id for d in fmt}) != len(fmt):
+        problems.append(("duplicate-declaration", "an INFO/FORMAT id is declared twice in the header"))
+    types = {d.id: d.type for d in info}
+    iv = dict(item.partition("=")[::2] for item in f[7].split(";"))
+    for k, v in iv.items():
+        if types.get(k) == "Integer" and v not in ("", ".") and any(x not in (".",) and not x.lstrip("-").isdigit() for x in v.split(",")):
+            problems.append(("type", "INFO %s=%s is declared Integer" % (k, v)))
+        if types.get(k) == "Flag" and v:
+            problems.append(("type", "INFO flag %s carries a value" % k))
+    ftypes = {d.id: d.type for d in fmt}
+    keys = f[8].split(":")
+    for colv in f[9:]:
+        for k, v in zip(keys, colv.split(":")):
+            if ftypes.get(k) == "Integer" and v != "." and any(x != "." and not x.lstrip("-").isdigit() for x in v.split(",")):
+                problems.append(("type", "FORMAT %s=%s is declared Integer" % (k, v)))
+    return problems
+
+
 def parse_line(line, infofields, formatfields, samples, ploidy, snv_offsets, ref_seq):
     """returns list of (kind, message) problems"""
     problems = []
@@ -346,6 +407,7 @@ def _asm_driver(c):
             data.sampledata[FORMAT.SNVDP][s] = rnp.array([7.0, 8.0])
         prog.call_sample_genotypes(data)
         prog.sumarise_vcf_record(data)
+        data.header = header_of(prog, samples)
         return data.format_vcf_record(), thr, data
 
     return body, infof, fmtf, samples, scen
@@ -365,7 +427,8 @@ def _run_asm_line(c, col):
             col.reachable(pr.ctx)
             first = False
         line, thr, data = pr.value
-        problems = parse_line(line, infof, fmtf, samples, {s: len(gs[0]) for s, gs in zip(samples, scen)}, {1, 3}, "AAGA") or readback_problems(line, data, samples)
+        hi, hf, _, _ = decl_from_header(data.header)  # declared = what the emitted header text declares
+        problems = parse_line(line, hi, hf, samples, {s: len(gs[0]) for s, gs in zip(samples, scen)}, {1, 3}, "AAGA") or header_problems(line, data.header, samples) or readback_problems(line, data, samples)
         if problems:
             col.fail(site, problems[0][0], shape=dict(prog="assemble"), witness=dict(line=line, problems=[p[1] for p in problems][:4], model=E.model_dict(E.prove(pr.ctx, False).model), scenario=c["scenario"]), desc=problems[0][1])
         else:
@@ -444,6 +507,7 @@ def _run_call_line(c, col):
             data.sampledata[FORMAT.SNVDP][s] = rnp.array([7.0])
         prog.call_sample_genotypes(data)
         prog.sumarise_vcf_record(data)
+        data.header = header_of(prog, samples)
         return data.format_vcf_record(), data
 
     first = True
@@ -457,7 +521,8 @@ def _run_call_line(c, col):
             col.reachable(pr.ctx)
             first = False
         line, data = pr.value
-        problems = parse_line(line, infof, fmtf, samples, {s: P for s in samples}, {1}, "AAA") or readback_problems(line, data, samples)
+        hi, hf, _, _ = decl_from_header(data.header)
+        problems = parse_line(line, hi, hf, samples, {s: P for s in samples}, {1}, "AAA") or header_problems(line, data.header, samples) or readback_problems(line, data, samples)
         if problems:
             col.fail(site, problems[0][0], shape=dict(prog="call"), witness=dict(line=line, problems=[p[1] for p in problems][:4], model=E.model_dict(E.prove(pr.ctx, False).model)), desc=problems[0][1])
         else:
@@ -633,6 +698,7 @@ def _run_exact_line(c, col):
             data.sampledata[FORMAT.SNVDP][s] = rnp.array([7.0])
         prog.call_sample_genotypes(data)
         prog.sumarise_vcf_record(data)
+        data.header = header_of(prog, samples)
         data.banned = [i for i in range(nA) if zero[i]]
         return data.format_vcf_record(), data
 
@@ -647,7 +713,8 @@ def _run_exact_line(c, col):
             col.reachable(pr.ctx)
             first = False
         line, data = pr.value
-        problems = parse_line(line, infof, fmtf, samples, ploidy, {1}, "AAA") or readback_problems(line, data, samples) or banned_problems(line, data, samples)
+        hi, hf, _, _ = decl_from_header(data.header)
+        problems = parse_line(line, hi, hf, samples, ploidy, {1}, "AAA") or header_problems(line, data.header, samples) or readback_problems(line, data, samples) or banned_problems(line, data, samples)
         if problems:
             col.fail(site, problems[0][0], shape=dict(prog="call-exact"), witness=dict(line=line, problems=[p[1] for p in problems][:4], model=E.model_dict(E.prove(pr.ctx, False).model)), desc=problems[0][1])
         else:
@@ -725,6 +792,7 @@ def _run_ped_line(c, col):
             data.sampledata[FORMAT.SNVDP][s] = rnp.array([7.0])
         prog.call_sample_genotypes(data)
         prog.sumarise_vcf_record(data)
+        data.header = header_of(prog, samples)
         data.banned = [i for i in range(nA) if zero[i] or (i == 0 and mask)]
         return data.format_vcf_record(), data
 
@@ -739,7 +807,8 @@ def _run_ped_line(c, col):
             col.reachable(pr.ctx)
             first = False
         line, data = pr.value
-        problems = parse_line(line, infof, fmtf, samples, ploidy, {1}, "AAA") or readback_problems(line, data, samples) or banned_problems(line, data, samples)
+        hi, hf, _, _ = decl_from_header(data.header)
+        problems = parse_line(line, hi, hf, samples, ploidy, {1}, "AAA") or header_problems(line, data.header, samples) or readback_problems(line, data, samples) or banned_problems(line, data, samples)
         if problems:
             col.fail(site, problems[0][0], shape=dict(prog="call-pedigree"), witness=dict(line=line, problems=[p[1] for p in problems][:4], model=E.model_dict(E.prove(pr.ctx, False).model)), desc=problems[0][1])
         else:
